@@ -167,7 +167,13 @@ def build_recipe(case, ctx):
                 if carrier == "dep5":
                     carrier = "header"
             U.add(used_as)
-            files.append({"path": f"f{n}.txt", "kind": "text", "style": rng.choice(["python", "c", "html", "lisp", "jinja"]), "multi": False,
+            style = rng.choice(["python", "c", "html", "lisp", "jinja"])
+            tail = used_as[-1]
+            if tail in "dnl" and not used_as.endswith("lnd") and rng.random() < 0.6:
+                style = "m4"   # a comment marker made of letters, and an identifier that ends in one of them
+            elif tail in "REM" and not used_as.endswith("MER") and rng.random() < 0.6:
+                style = "bat"
+            files.append({"path": f"f{n}.txt", "kind": "text", "style": style, "multi": False,
                           "sources": [{"carrier": carrier, "copyrights": ["2021 Someone"], "exprs": exprs, "toml_dir": ""}]})
         # --- provision (never two files for one identifier: that is C16's business)
         pkey = ident + "+" if prov == "plusfile" else ident
